@@ -67,6 +67,13 @@ Proof.
   apply Z.leb_le in H. apply Z.ltb_lt in H2. apply Z.leb_le in H1.
   constructor; [repeat split; cbn; lia|]. apply (IH (s + zlen ws)); [lia|exact H0].
 Qed.
+(* every block is non-empty (whatever lo) *)
+Lemma blocks_ok_sized_gen lo bs : blocks_ok lo bs = true -> Forall (fun b => 0 < zlen (snd b)) bs.
+Proof.
+  revert lo. induction bs as [|(s, ws) r IH]; cbn; intros lo H; [constructor|].
+  repeat (apply andb_true_iff in H; destruct H as (H & ?)). apply Z.ltb_lt in H2.
+  constructor; [exact H2|]. eapply IH; eauto.
+Qed.
 Lemma blocks_ok_weaken lo lo' bs : lo' <= lo -> blocks_ok lo bs = true -> blocks_ok lo' bs = true.
 Proof.
   destruct bs as [|(s, ws) r]; cbn; [auto|]. intros Hl H.
@@ -153,6 +160,27 @@ Proof.
   intros s ws ws' Hin Hacc. apply (bt_insert_some _ _ _ _ 0 E) in Hacc. destruct Hacc as [Eq|Hacc].
   - inversion Eq; subst. pose proof (sorted_from_in _ _ _ _ S2 Hin). lia.
   - eapply Hf; eauto.
+Qed.
+Lemma bt_insert_some_fresh k v (l l' : blocks) lo : sorted_from lo l -> bt_insert k v l = Some l' -> forall v', ~ In (k, v') l.
+Proof.
+  revert l' lo. induction l as [|(k', w) r IH]; cbn; intros l' lo Hs H v' Hin; [contradiction|].
+  destruct Hs as (S1 & S2). destruct (k <? k') eqn:E1.
+  - apply Z.ltb_lt in E1. destruct Hin as [E|Hin]; [inversion E; lia|].
+    pose proof (sorted_from_in _ _ _ _ S2 Hin). lia.
+  - destruct (k =? k') eqn:E2; [discriminate|]. apply Z.eqb_neq in E2.
+    destruct (bt_insert k v r) as [r'|] eqn:E3; [|discriminate].
+    destruct Hin as [E|Hin]; [inversion E; congruence|]. eapply IH; eauto.
+Qed.
+Lemma insert_blocks_fresh bs acc r : sorted_from 0 acc -> (forall s ws, In (s, ws) bs -> 0 <= s) ->
+  insert_blocks bs acc = Some r -> forall s ws ws', In (s, ws) bs -> ~ In (s, ws') acc.
+Proof.
+  revert acc r. induction bs as [|(k, v) bs IH]; cbn; intros acc r Hs Hk H s ws ws' Hin Hacc; [contradiction|].
+  destruct (bt_insert k v acc) as [acc'|] eqn:E; [|discriminate].
+  destruct Hin as [Eq|Hin].
+  - inversion Eq; subst. eapply bt_insert_some_fresh; eauto.
+  - eapply (IH acc' r); eauto.
+    + eapply bt_insert_sorted; eauto.
+    + apply (bt_insert_some _ _ _ _ 0 E). right. exact Hacc.
 Qed.
 Lemma insert_blocks_none bs acc : insert_blocks bs acc = None ->
   exists s ws ws', In (s, ws) bs /\ (In (s, ws') acc \/ In (s, ws') bs).
